@@ -1,6 +1,7 @@
 package checks
 
 import (
+	"fmt"
 	"strings"
 
 	"time"
@@ -84,7 +85,7 @@ func registerSched() {
 		RuleText: genRule + "Statement lifecycle hooks (build tag verif): canonical dump of the session before a statement's first operation and at every checkpoint, compared after Discard / Rollback; Cache calls of every Commit compared with the net effect of the valid operations. Non-trivial: a case with >= 2 judged discards/rollbacks and >= 1 judged commit.",
 		Assume: []string{"dump excludes tasksToAllocate caches, fit errors, topology scratch scores and GPUGroups of pods that are not on a node",
 			"a discard/rollback is judged only if no other statement with pending operations was alive and no commit happened in between"}})
-	run.Register(&SchedCheck{Id: "C10", Profile: "mixed", Quick: 400, Thorough: 8000, PanicIsViolation: true, TimeoutCase: 45 * time.Second,
+	run.Register(&SchedCheck{Id: "C10", Profile: "mixed", Quick: 1600, Thorough: 40000, PanicIsViolation: true, TimeoutCase: 20 * time.Second,
 		Mutate: func(c *spec.Case, seed int64, idx int) {
 			r := gen.NewRand(seed, idx, 10)
 			c.Faults = spec.Faults{}
@@ -97,10 +98,19 @@ func registerSched() {
 			gen.AddControl(c)
 		},
 		AfterCase: func(c *spec.Case, hist []CycleRecord, st *oracle.Stats) []run.Violation {
-			for _, m := range c.Meta["hostile"].([]string) {
+			var muts []string
+			switch v := c.Meta["hostile"].(type) {
+			case []string:
+				muts = v
+			case []any: // replay file
+				for _, m := range v {
+					muts = append(muts, fmt.Sprint(m))
+				}
+			}
+			for _, m := range muts {
 				st.Inc("mutation_" + m)
 			}
-			st.NonTrivial = len(c.Meta["hostile"].([]string)) > 0
+			st.NonTrivial = len(muts) > 0
 			for _, h := range hist {
 				if h.Panic != "" {
 					return nil // reported as sut-panic
@@ -112,9 +122,9 @@ func registerSched() {
 					}
 				}
 			}
-			return []run.Violation{oracle.Viol("C10", "control-workload-not-scheduled", strings.Join(c.Meta["hostile"].([]string), "+"), 0,
-				"the healthy control workload (own queue %s, dedicated node %s) was not bound in %d cycles; malformed objects: %v", gen.ControlQueue, gen.ControlNode, len(hist), c.Meta["hostile"])}
+			return []run.Violation{oracle.Viol("C10", "control-workload-not-scheduled", strings.Join(muts, "+"), 0,
+				"the healthy control workload (own queue %s, dedicated node %s) was not bound in %d cycles; malformed objects: %v", gen.ControlQueue, gen.ControlNode, len(hist), muts)}
 		},
-		RuleText: genRule + "Each case = a valid cluster + 1-5 malformed-object mutations (queue self-parent / cycles / missing parents / nil resources / absurd quotas, bad sub-group graphs, non-positive or huge minimums, pods without containers or pod group, garbage GPU annotations incl. NaN/Inf/overflow, nodes without labels / zero, negative or empty allocatable / garbage GPU labels, dangling BindRequests, empty topologies, missing priority classes) + a healthy control workload on its own queue and node. Oracle: no panic (in-process recover or worker crash), termination (45 s watchdog, ~300x a normal cycle; a worker killed by the watchdog counts as a hang only if a goroutine is running inside KAI code), control workload bound. Non-trivial: a case with >= 1 mutation.",
+		RuleText: genRule + "Each case = a valid cluster + 1-5 malformed-object mutations (queue self-parent / cycles / missing parents / nil resources / absurd quotas, bad sub-group graphs, non-positive or huge minimums, pods without containers or pod group, garbage GPU annotations incl. NaN/Inf/overflow, nodes without labels / zero, negative or empty allocatable / garbage GPU labels, dangling BindRequests, empty topologies, missing priority classes) + a healthy control workload on its own queue and node. Oracle: no panic (in-process recover or worker crash), termination (20 s watchdog, ~150x a normal cycle; a worker killed by the watchdog counts as a hang only if a goroutine is running inside KAI code), control workload bound. Non-trivial: a case with >= 1 mutation.",
 		Assume:   []string{"a watchdog firing without a running KAI goroutine is inconclusive", "every 8th case carries no mutation (well-formed input)"}})
 }
